@@ -271,6 +271,8 @@ class RandomLineAccessFile(BaseRandomLineAccessFile[str]):
             self.file.close()
             self.file = None
             self._opened_in_process_with_id = None
+            # the cursor of a handle that is opened later is not where a running iteration left this one
+            self._last_sequential_reader = None
 
     def reopen_if_needed(self):
         """
@@ -281,8 +283,6 @@ class RandomLineAccessFile(BaseRandomLineAccessFile[str]):
             # we don't want to open it when the file was not open yet to prevent accidental open
             self.close()
             self.open()
-            # the cursor of the new handle is not where a running iteration left the old one
-            self._last_sequential_reader = None
 
     @property
     def closed(self) -> bool:
@@ -321,6 +321,7 @@ class MemoryMappedRandomLineAccessFile(RandomLineAccessFile):
             self.mm = None
             self.file = None
             self._opened_in_process_with_id = None
+            self._last_sequential_reader = None
 
     def _file_seek(self, offset: int):
         self.reopen_if_needed()
